@@ -67,6 +67,7 @@ class Run:
         self.pc = self.cfg['properties'][prop]
         self.known = json.load(open(os.path.join(VERIF, 'known_findings.json')))
         self.gaps = json.load(open(os.path.join(VERIF, 'proof_gaps.json')))
+        self.deferred_undecided = []   # reasons that make the run UNDECIDED unless a violation is found
         self.failures = []     # dicts: key, props, text, engine
         self.obligations = []  # dicts: name, engine, ok, ms
         self.assumptions = []
@@ -400,6 +401,8 @@ def main():
         import units
         units.run_all(run)
         viol = run.decide()
+        if not viol and run.deferred_undecided:
+            raise Undecided('; '.join(run.deferred_undecided))
     except Undecided as e:
         run.evidence([], 'undecided: ' + str(e)[:300])
         print(f"UNDECIDED property={a.prop} {e}")
